@@ -184,7 +184,11 @@ func registerUserFuncs() {
 		decoder.RegisterModFnNS("ns", "suffix", "", suffix("ns::suffix"))
 
 		decoder.RegisterCondFn("isTrue", func(ctx *decoder.Ctx, args []any) bool {
-			ustate(ctx).log("cond", "isTrue", args)
+			// a condition helper has no error result: it reports a failure through ctx.Err
+			if n, fail := ustate(ctx).log("cond", "isTrue", args); fail {
+				ctx.Err = &injErr{n}
+				return false
+			}
 			if len(args) == 0 {
 				return false
 			}
@@ -193,7 +197,10 @@ func registerUserFuncs() {
 		})
 		eq := func(name string) decoder.CondFn {
 			return func(ctx *decoder.Ctx, args []any) bool {
-				ustate(ctx).log("cond", name, args)
+				if n, fail := ustate(ctx).log("cond", name, args); fail {
+					ctx.Err = &injErr{n}
+					return false
+				}
 				if len(args) < 2 {
 					return false
 				}
